@@ -121,6 +121,10 @@ var boundsTable = map[string]boundsEntry{
 }
 
 func (a *An) boundsTable(rule string) {
+	if a.C.GOARCH != "" {
+		a.R.Note("bounds table: evaluated on the default configuration only (the prove pass discharges a different set on %s)", a.C.GOARCH)
+		return
+	}
 	sites, err := unprovenBounds(a.C)
 	if err != nil {
 		a.R.Undec(rule, "compiler-listing", "obtain the compiler's list of undischarged bounds checks", "", err.Error())
@@ -340,6 +344,8 @@ var narrowTable = map[string]string{
 	"(*Conversation).UseExtraSymmetricKey|uint16(len($usageData))":                                   "KNOWN D20: usage data of 64 KiB or more wraps the TLV length (length no longer matches content)",
 }
 
+var archIntBits = 64
+
 func intWidth(t types.Type) (bits int, signed bool, ok bool) {
 	b, isB := t.Underlying().(*types.Basic)
 	if !isB {
@@ -355,7 +361,7 @@ func intWidth(t types.Type) (bits int, signed bool, ok bool) {
 	case types.Int64:
 		return 64, true, true
 	case types.Int:
-		return 64, true, true
+		return archIntBits, true, true
 	case types.Uint8:
 		return 8, false, true
 	case types.Uint16:
@@ -365,12 +371,16 @@ func intWidth(t types.Type) (bits int, signed bool, ok bool) {
 	case types.Uint64, types.Uintptr:
 		return 64, false, true
 	case types.Uint:
-		return 64, false, true
+		return archIntBits, false, true
 	}
 	return 0, false, false
 }
 
 func (a *An) narrowingSites() (out []*ssa.Convert) {
+	archIntBits = 64
+	if a.C.GOARCH == "386" {
+		archIntBits = 32
+	}
 	for _, f := range a.C.FuncSeq {
 		if strings.HasPrefix(a.C.Name(f), "unsafeWipe") || strings.Contains(a.C.Name(f), "Wipe") {
 			continue
